@@ -234,6 +234,18 @@ theorem nmSeqOn_eq_fresh (rnd : Rat → Rat) (ftol : Rat) (fuel : Nat) : ∀ (ob
     congr 1
     exact nmSeqOn_eq_fresh rnd ftol fuel _ rest
 
+/-- argument aliasing is irrelevant (value semantics): a run whose simplex argument is the object's
+    own `current_simplex` (or is built from its row 0) is the run of a FRESH object on a copy of
+    that simplex. -/
+theorem runArg_value_semantics (rnd : Rat → Rat) (f : Pt → Rat) (obj : NM) (ftol : Rat) (fuel : Nat) (a : Arg) :
+    runArg rnd f obj ftol fuel a = (argSimplex rnd obj a).bind (fun pp => nelderMead rnd f ftol pp fuel) := by
+  unfold runArg
+  cases argSimplex rnd obj a <;> simp [nelderMeadOn_eq]
+
+theorem restart_own_simplex (rnd : Rat → Rat) (f : Pt → Rat) (obj : NM) (ftol : Rat) (fuel : Nat) :
+    runArg rnd f obj ftol fuel .own = nelderMead rnd f ftol obj.p fuel := by
+  rw [runArg_value_semantics]; rfl
+
 /-! ## non-vacuity: concrete runs that terminate with `ok` (so the hypotheses are met) -/
 
 example : ∃ x fx m t, findMinimum (rndK 8) (fun x => (x - 3) * (x - 3)) 0 1 (1/100) 20 = (.ok x fx m, t) :=
